@@ -179,6 +179,46 @@ def runCalls (s : St) : List (Sched × List File) → St
   | [] => s
   | (sch, F) :: r => runCalls (replaceFiles sch s F).st r
 
+/-! ### how `Remove`'s ENOENT reaches `ReplaceFiles` (liveness of recovery)
+
+`removeLoop` above continues after `erase fs p` whether or not `p` was on disk.  In the code that is two
+different paths: for a tracked path that is NOT on disk (left behind by a replacement that failed at
+`Create`, or whose removal loop stopped half-way) the operating system answers ENOENT, `StdLibOSFileManager.Remove`
+hands that error to `ReplaceFiles`, and `ReplaceFiles` must RECOGNISE it as "already gone".  `removeLoopE tol`
+makes this explicit: `tol = true` is the code as it is (`os.Remove`'s `*PathError` is returned unwrapped and
+`os.IsNotExist` recognises it — `enoentRecognised` below, pinned to both source texts by `Props/C11`);
+`tol = false` is the variant in which the answer is not recognised (e.g. the error is wrapped with `%w` and
+still tested with `os.IsNotExist`, which does not unwrap), kept to state the liveness witness. -/
+def removeLoopE (tol : Bool) (sch : Sched) : Nat → FS → List String → R
+  | k, fs, [] => ⟨fs, k, .ok⟩
+  | k, fs, p :: ps =>
+    match sch k with
+    | some (.crash _) => ⟨fs, k, .crashed⟩
+    | some .enoent    =>
+      if tol then removeLoopE tol sch (k + 1) (erase fs p) ps else ⟨erase fs p, k + 1, .failed⟩
+    | some _          => ⟨fs, k + 1, .failed⟩
+    | none            =>
+      if get fs p = none ∧ tol = false then ⟨fs, k + 1, .failed⟩
+      else removeLoopE tol sch (k + 1) (erase fs p) ps
+
+/-- `ReplaceFiles` with the ENOENT classification explicit (`replaceFilesE true = replaceFiles`, theorem
+`replaceFilesE_true`). -/
+def replaceFilesE (tol : Bool) (sch : Sched) (s : St) (files : List File) : Res :=
+  let r := removeLoopE tol sch 0 s.fs s.last
+  match r.out with
+  | .ok =>
+    let w := writeLoop true sch r.k r.fs [] files
+    ⟨⟨w.fs, w.last⟩, w.out, w.k⟩
+  | o => ⟨⟨r.fs, s.last⟩, o, r.k⟩
+
+/-- Does the test `ReplaceFiles` applies to `Remove`'s error recognise the ENOENT that `Remove` produces?
+`producer`: how `StdLibOSFileManager.Remove` returns the error of `os.Remove` (`direct` = unchanged,
+`wrapped-%w` = inside `fmt.Errorf("…%w", err)`); `test`: the classifier in `ReplaceFiles`
+(`os.IsNotExist` inspects the error itself and does not unwrap; `errors.Is` follows `%w` chains). -/
+def enoentRecognised (producer test : String) : Bool :=
+  (producer == "direct" && (test == "os.IsNotExist" || test == "errors.Is")) ||
+  (producer == "wrapped-%w" && test == "errors.Is")
+
 /-! ### ClearFolders -/
 
 /-- `dirChars rest seen acc`: `seen` = characters consumed so far, `acc` = prefix before the last '/'. -/
